@@ -397,4 +397,109 @@ def runPipeline (p : PipeIn) : PrepOut :=
   | Option.none, t => ⟨a.trace, Option.none, t⟩   -- unreachable: acceptance always yields a directory
   | some e, t => ⟨a.trace, some e, t⟩
 
+
+/-! ### results that come back from a results file (`--reuse-results`) -/
+
+/-- what `AntismashResults.from_file` puts into `results` for a module whose `to_json()` value was
+    `v`: the raw JSON value — a dict, list, string, number or boolean, i.e. *not* a `ModuleResults` —
+    or `None` for JSON `null` -/
+def jsonShape : PyVal → ModSpec
+  | .none => .none
+  | .bool b => .invalid (.bool b)
+  | .int n => .invalid (.int n)
+  | .str s => .invalid (.str s)
+  | .list xs => .invalid (.list xs.length)
+  | .dict kvs => .invalid (.dict kvs.length)
+  | .seq s => .invalid (.str s)
+  | .seqConv s _ => .invalid (.str s)
+  | .conv v => jsonShape v
+  | .convRaises _ => .invalid (.dict 0)
+  | .dunder v => jsonShape v
+  | .dunderRaises _ => .invalid (.dict 0)
+  | .both v _ => jsonShape v
+  | .opaque => .invalid (.dict 0)
+
+/-- one record's `modules` as read back: entries that were skipped when writing are not there -/
+def reloadDict : ModDict → ModDict
+  | [] => []
+  | (k, .mod _ v) :: rest => (k, jsonShape v) :: reloadDict rest
+  | _ :: rest => reloadDict rest
+
+/-- `read_data` in reuse mode on a file written from `r` (fault-free): plain records, raw module
+    values, timings cleared — what the run holds if no module regenerates its results -/
+def reload (r : Results) : Results :=
+  ⟨(r.results.take r.records.length).map fun _ => ⟨Option.none⟩,
+   (r.results.take r.records.length).map reloadDict, .dict []⟩
+
+/-! ### option handling around the two functions: derived names -/
+
+/-- the options these functions read and (through `update_config`) write -/
+structure Options where
+  /-- `--output-basename`, `""` when not given; filled in by the first `canonical_base_filename` -/
+  outputBasename : String
+  /-- `--output-dir`; filled in by `prepare_output_directory` when empty -/
+  outputDir : String
+  /-- `--logfile` -/
+  logfile : String
+deriving Repr, Inhabited, DecidableEq
+
+/-- `ext.lower() in (".gz", ".bz", ".xz")` -/
+def isCompressionExt (ext : Path) : Bool :=
+  let l := ext.map Char.toLower
+  l == ".gz".toList || l == ".bz".toList || l == ".xz".toList
+
+/-- `canonical_base_filename(input_file, directory, options)`: the option if set, else the input's
+    base name without its extension (two extensions for compressed input), remembered in the options -/
+def canonicalBaseFilename (inputFile directory : String) (o : Options) : String × Options :=
+  if o.outputBasename != "" then
+    (String.ofList (PosixPath.join directory.toList o.outputBasename.toList), o)
+  else
+    let se := PosixPath.splitext (PosixPath.basename inputFile.toList)
+    let base := if isCompressionExt se.2 then (PosixPath.splitext se.1).1 else se.1
+    (String.ofList (PosixPath.join directory.toList base), { o with outputBasename := String.ofList base })
+
+/-- `prepare_output_directory(name, input_file)` as it is called -/
+structure CallIn where
+  /-- what exists at the output directory's (effective) path -/
+  target : Target
+  inputFile : String
+  cwd : String
+  /-- the `name` argument, possibly empty -/
+  nameArg : String
+  opts : Options
+deriving Repr, Inhabited
+
+/-- the head of `prepare_output_directory`: `input_prefix = basename(canonical_base_filename(input_file,
+    "", config))`; `if not name: name = abspath(input_prefix); update_config(output_dir=name)` -/
+def effective (c : CallIn) : PrepIn × Options :=
+  let cb := canonicalBaseFilename c.inputFile "" c.opts
+  let inputPrefix := PosixPath.basename cb.1.toList
+  if c.nameArg == "" then
+    let name := String.ofList (PosixPath.abspath c.cwd.toList inputPrefix)
+    (⟨c.target, c.inputFile, c.cwd, name, cb.2.logfile⟩, { cb.2 with outputDir := name })
+  else
+    (⟨c.target, c.inputFile, c.cwd, c.nameArg, cb.2.logfile⟩, cb.2)
+
+/-- `prepare_output_directory` from its first line -/
+def prepareCall (c : CallIn) : PrepOut × Options :=
+  (prepareOutputDir (effective c).1, (effective c).2)
+
+/-- `_run_antismash` from `prepare_output_directory` on, names derived as the code derives them -/
+structure RunIn where
+  call : CallIn
+  results : Results
+  /-- `results.input_file` -/
+  resultsInputFile : String
+deriving Repr, Inhabited
+
+/-- `json_filename = canonical_base_filename(results.input_file, options.output_dir, options) + ".json"`,
+    as a name inside the output directory -/
+def RunIn.jsonName (r : RunIn) : String :=
+  let o := (effective r.call).2
+  String.ofList (PosixPath.basename (canonicalBaseFilename r.resultsInputFile o.outputDir o).1.toList) ++ ".json"
+
+def RunIn.toPipe (r : RunIn) : PipeIn := ⟨(effective r.call).1, r.results, r.jsonName⟩
+
+def runTail (r : RunIn) : PrepOut := runPipeline r.toPipe
+
 end ASV.WriteSafety
